@@ -145,19 +145,26 @@ def matches_known(known, case):
 
 def coq_eval(mod, prop, cases, outs, tag='cases', shard=None):
     """Evaluate the model on the cases and compare with implementation outputs."""
-    triples = []
+    streams = {}
     skipped = 0
     for i, (c, o) in enumerate(zip(cases, outs)):
         t = mod.coq_case(c, o)
         if t is None:
             skipped += 1
             continue
-        triples.append((i, t[0], t[1]))
-    if not triples:
-        return 0, [], [], skipped
-    n, bad, errors = coqio.eval_shards(os.path.join(WORK, prop), mod.COQ_HEADER, mod.COQ_RUNNER, triples,
-                                       shard=shard or getattr(mod, 'SHARD', 400), tag=tag,
-                                       ctype=getattr(mod, 'COQ_TYPES', None))
+        name = mod.stream_of(c) if hasattr(mod, 'stream_of') else 'main'
+        streams.setdefault(name, []).append((i, t[0], t[1]))
+    n, bad, errors = 0, [], []
+    for name, triples in streams.items():
+        if hasattr(mod, 'COQ_STREAMS'):
+            header, runner, ctype, shd = mod.COQ_STREAMS[name]
+        else:
+            header, runner, ctype, shd = mod.COQ_HEADER, mod.COQ_RUNNER, getattr(mod, 'COQ_TYPES', None), getattr(mod, 'SHARD', 400)
+        n1, bad1, err1 = coqio.eval_shards(os.path.join(WORK, prop), header, runner, triples,
+                                          shard=shard or shd, tag=tag + '_' + name, ctype=ctype)
+        n += n1
+        bad.extend(bad1)
+        errors.extend(err1)
     return n, bad, errors, skipped
 
 
@@ -258,7 +265,7 @@ def run_check(prop, tier, seed):
         payload = {'property': prop, 'kind': kind, 'what': msg, 'case': small, 'observed': o,
                    'original_case_hash': canon_hash(c),
                    'broken': ('statement oracle (property fails on the implementation)' if kind == 'oracle'
-                              else 'correspondence model<->implementation: %s via %s' % (mod.COQ_RUNNER, mod.PROPS_FILE)),
+                              else 'correspondence model<->implementation: %s via %s' % (getattr(mod, 'COQ_RUNNER', 'model runners'), mod.PROPS_FILE)),
                    'replay': './check --replay <this file>'}
         path = write_replay(prop, payload)
         violations.append((path, '' if kind == 'oracle' else ' no-failing-input-found'))
@@ -286,7 +293,7 @@ def run_check(prop, tier, seed):
         violations.append((write_replay(prop, payload), ' no-failing-input-found'))
     if cerrors:
         payload = {'property': prop, 'kind': 'coq_error', 'what': 'case file did not evaluate', 'detail': cerrors[:3],
-                   'broken': 'correspondence evaluation (%s)' % mod.COQ_RUNNER}
+                   'broken': 'correspondence evaluation (%s)' % getattr(mod, 'COQ_RUNNER', 'model runners')}
         violations.append((write_replay(prop, payload), ' no-failing-input-found'))
     if proof_broken:
         payload = {'property': prop, 'kind': 'proof', 'broken': 'theorem file %s no longer checks' % mod.PROPS_FILE,
